@@ -151,7 +151,7 @@ Definition outcome_eqb (a b: outcome) : bool :=
   | _, _ => false
   end.
 
-(* ---- domain of the main theorem (the two excluded corners are listed findings) ---- *)
+(* ---- domain of the main theorem (the excluded corner is a listed finding) ---- *)
 Definition empty_alias (c: cls) (f: fld) : bool :=
   match alias_of c f with Some a => String.eqb a "" | None => false end.
 
@@ -160,6 +160,4 @@ Definition discr_ok (c: cls) : bool :=
   match c_discr c with Some (Some s) => negb (String.eqb s "") | _ => true end.
 
 Definition in_domain (c: cls) : bool :=
-  (match c_fields c with [] => negb (c_forbid c) | _ :: _ => true end)
-  && forallb (fun f => negb (empty_alias c f)) (c_fields c)
-  && discr_ok c.
+  forallb (fun f => negb (empty_alias c f)) (c_fields c) && discr_ok c.
